@@ -439,7 +439,7 @@ def analyse_supp(res: Result, sim: simnet.Sim, desc: Dict[str, Any], out: Dict[s
 # family lookup
 
 
-def run_lookup(res: Result, seed: int) -> None:
+def run_lookup(res: Result, seed: int, forced_scenario: Optional[Dict[str, Any]] = None) -> None:
     from zeroconf import DNSQuestionType
     from zeroconf.asyncio import AsyncServiceInfo
     rng = random.Random(seed)
@@ -456,7 +456,18 @@ def run_lookup(res: Result, seed: int) -> None:
             have["AAAA"] = "absent"
     second = rng.random() < 0.3
     second_gap = rng.choice([0, 100, 500, 998, 1000, 1500])
-    desc = {"family": "lookup", "timeout": timeout, "forced": forced, "have": have, "second": second, "second_gap": second_gap}
+    # a cached SRV or TXT that passes half of its TTL 150..900 ms after the lookup starts: its question is not asked by the
+    # first queries (answer held) and becomes a new question in a later one
+    going_stale = None
+    if not second and rng.random() < 0.3:
+        going_stale = {"kind": rng.choice(["SRV", "TXT"]), "after": rng.choice([150.0, 300.0, 450.0, 700.0, 900.0])}
+        have[going_stale["kind"]] = "absent"
+        have["A"] = "absent"
+        have["AAAA"] = "absent"
+    if forced_scenario is not None:
+        timeout, forced, going_stale, second = forced_scenario["timeout"], forced_scenario["forced"], forced_scenario["going_stale"], False
+        have = {"SRV": "absent", "TXT": "absent", "A": "absent", "AAAA": "absent"}
+    desc = {"family": "lookup", "timeout": timeout, "forced": forced, "have": have, "second": second, "second_gap": second_gap, "going_stale": going_stale}
 
     def viol(monitor: str, kind: str, detail: str, **sig: Any) -> None:
         res.violation(monitor, kind, detail, dict(sig, family="lookup"), {"seed": seed, "family": "lookup", "scenario": desc})
@@ -490,6 +501,12 @@ def run_lookup(res: Result, seed: int) -> None:
                     sim.net.inject_now(host, R.build_response([(idents[k], ttls[k], True)], id_=4), ("10.0.0.9", 5353))
                     cached[k] = Cached(idents[k], sim.now_ms(), ttls[k])
             await sim.sleep_ms(rng.choice([0, 5]))
+            if going_stale is not None:
+                # TTL 120 s: half-life 60 s after arrival; arrival placed so that the half-life falls `after` ms after the start
+                k = going_stale["kind"]
+                sim.net.inject_now(host, R.build_response([(idents[k], 120, True)], id_=5), ("10.0.0.9", 5353))
+                cached[k] = Cached(idents[k], sim.now_ms(), 120)
+                await sim.sleep_ms(60_000.0 - going_stale["after"])
             qt = {None: None, "QU": DNSQuestionType.QU, "QM": DNSQuestionType.QM}[forced]
             out["mark"] = len(sim.net.trace)
             S = sim.now_ms()
@@ -533,7 +550,13 @@ def run_lookup(res: Result, seed: int) -> None:
                     if qus and qus != {want_qu}:
                         viol("c13.progression", "lookup_question_type", "lookup query %d at +%.0f ms has QU=%r, expected %s (forced %s)" % (bi + 1, t - S, sorted(qus), want_qu, forced))
                     if bi >= 2 and prev_t is not None and t - prev_t < 1000.0 - 1.0:
-                        viol("c13.progression", "lookup_spacing", "lookup query %d only %.0f ms after the previous one" % (bi + 1, t - prev_t))
+                        # mechanism of known finding F27: the early query asks something the previous one did not ask (an answer
+                        # went stale, or the SRV target became known, in between); repeating the same questions early is not it
+                        prev_asked = {(q.name.text().lower(), q.type) for pm in batches[bi - 1][1] for q in pm.questions}
+                        now_asked = {(q.name.text().lower(), q.type) for q in m.questions}
+                        viol("c13.progression", "lookup_spacing", "lookup query %d only %.0f ms after the previous one (questions not in the previous query: %r)" % (
+                            bi + 1, t - prev_t, sorted(now_asked - prev_asked)[:2]),
+                            mechanism="new_question_in_early_query" if (bi == 2 and now_asked - prev_asked and not (now_asked & prev_asked)) else "other")
                 # known answers per question
                 res.mon("c13.known_answers")
                 asked = {(q.name.text().lower(), q.type) for q in m.questions}
@@ -555,6 +578,18 @@ def run_lookup(res: Result, seed: int) -> None:
                 "+".join("%s=%s" % (k, v[:2]) for k, v in sorted(have.items())), "q=%d" % min(len(batches), 5))
     if res.evaluations % 23 == 3:
         res.sample(desc)
+
+
+WITNESS_LOOKUP_SEED = None      # filled by witnesses(): the going-stale lookup is built explicitly
+
+
+def witnesses(spec):
+    """Stored witness of known finding F27: SRV cached with TTL 120 s, 59.7 s old when the lookup starts (half-life 300 ms
+    later), TXT and addresses absent: queries at 0 (QU: TXT/A/AAAA), ~250 ms (QM, same questions) and ~500 ms (QM, the SRV
+    question alone - new, hence not suppressed by the instance's own history) - the third one less than 1 s after the second."""
+    res = Result()
+    run_lookup(res, 4242, forced_scenario={"timeout": 3000, "forced": None, "going_stale": {"kind": "SRV", "after": 300.0}})
+    return res
 
 
 def run_shard(spec):
